@@ -33,7 +33,8 @@ CHECKS = {
         note='Trusted: Lean kernel + standard axioms; harness/corerec.py + corechecks.py (outside instrumentation, abstraction of the real state); numerics (bounds, networks, likelihood values) are oracles: theorems hold for every oracle answer subject to the stated hypotheses (WF = proposals fresh, in the cube and inside their bound, i.e. C07; PhaseOK/TPhase = phase discipline of run(), proved for every event sequence accepted by Model/Run.lean; the recorded events of real run() calls are checked for acceptance).', tech='Lean 4 proof (counting invariants) + replay + independent estimator recomputation', ref='DESIGN.md §3 C02'),
     'C03': dict(
         text='Lean 4 theorems: the three per-shell arrays stay aligned through every operation (no hypothesis), posterior rows are '
-             '(p, L(p), blob(p)) triples in storage order, each evaluation at most once; replay over evaluation modes with an instrumented '
+             '(p, L(p), blob(p)) triples in storage order, each evaluation at most once; model of evaluate_likelihood: scalar, vectorised and pooled evaluation (any '
+             'completion order) return the same results in proposal order and never alter the rows handed in (copy before the prior transform); replay over evaluation modes with an instrumented '
              'likelihood whose call log every returned row is checked against.',
         note='Trusted: Lean kernel + standard axioms; harness/corerec.py + corechecks.py (outside instrumentation, abstraction of the real state); numerics (bounds, networks, likelihood values) are oracles: theorems hold for every oracle answer subject to the stated hypotheses (WF = proposals fresh, in the cube and inside their bound, i.e. C07; PhaseOK/TPhase = phase discipline of run(), proved for every event sequence accepted by Model/Run.lean; the recorded events of real run() calls are checked for acceptance).', tech='Lean 4 proof (alignment refinement parallel arrays -> rows) + replay with instrumented likelihood', ref='DESIGN.md §3 C03'),
     'C04': dict(
@@ -58,7 +59,8 @@ CHECKS = {
         tech='Lean 4 proof (loop-slice laws + decide over generated persistence tables) + file-vs-memory diff at every write + resume differential', ref='DESIGN.md §3 C05'),
     'C06': dict(
         text='Lean 4 theorem on an inode-level system-call model: for every trace respecting the atomic-writer discipline, every crash '
-             'prefix leaves the checkpoint path existing with exactly the content it had when last completed/moved into place; exact '
+             'prefix leaves the checkpoint path existing with exactly the content it had when last completed/moved into place (alphabet: open, mutate, close, '
+             'unlink, rename, link); exact '
              'classifier for arbitrary traces. Real checkpointed runs are traced with strace, every system call on the checkpoint and its '
              'temporary sibling is a crash point decided by the model on the observed trace, and real SIGKILL experiments (strace fault '
              'injection at the k-th call) open, compare and resume the file left behind.',
